@@ -448,6 +448,325 @@ def _from_method(tree):
     return lvl
 
 
+# =========================================================================== further kernels
+# Method.getSignatureInfo / getSignatureString, Element's tagged-value accessors and
+# ABCInterfaceClass.__method_from_function.  Same rule: known shapes only, otherwise Abort.
+
+def coq_str(text):
+    return "[" + "; ".join("%d%%N" % ord(ch) for ch in text) + "]"
+
+
+def _class(tree, name):
+    cls = [n for n in tree.body if isinstance(n, ast.ClassDef) and n.name == name]
+    if len(cls) != 1:
+        raise Abort("expected exactly one class %s" % name)
+    return cls[0]
+
+
+def _method(cls, name, argnames, defaults=()):
+    fns = [n for n in cls.body if isinstance(n, (ast.FunctionDef, ast.AsyncFunctionDef)) and n.name == name]
+    if len(fns) != 1 or not isinstance(fns[0], ast.FunctionDef) or fns[0].decorator_list:
+        raise Abort("expected exactly one plain method %s.%s" % (cls.name, name))
+    fn = fns[0]
+    a = fn.args
+    if ([x.arg for x in a.args] != list(argnames) or a.posonlyargs or a.kwonlyargs or a.vararg or a.kwarg
+            or [ast.unparse(d) for d in a.defaults] != list(defaults)):
+        raise Abort("%s.%s has an unexpected signature: (%s)" % (cls.name, name, ast.unparse(a)))
+    body = list(fn.body)
+    if body and isinstance(body[0], ast.Expr) and isinstance(body[0].value, ast.Constant) \
+            and isinstance(body[0].value.value, str):
+        body = body[1:]
+    return body
+
+
+def _self_attr(e, attrs):
+    if isinstance(e, ast.Attribute) and isinstance(e.value, ast.Name) and e.value.id == "self" and e.attr in attrs:
+        return e.attr
+    return None
+
+
+INFO_KEYS = ["positional", "required", "optional", "varargs", "kwargs"]
+
+
+def _signature_info(cls):
+    body = _method(cls, "getSignatureInfo", ["self"])
+    if len(body) != 1 or not isinstance(body[0], ast.Return) or not isinstance(body[0].value, ast.Dict):
+        raise Abort("getSignatureInfo is not a single ``return {...}``")
+    d = body[0].value
+    got = {}
+    for k, v in zip(d.keys, d.values):
+        if not (isinstance(k, ast.Constant) and isinstance(k.value, str)) or k.value in got:
+            raise Abort("getSignatureInfo: unexpected key " + _where(d))
+        a = _self_attr(v, INFO_KEYS)
+        if a is None:
+            raise Abort("getSignatureInfo: unexpected value for %r: %s" % (k.value, ast.unparse(v)))
+        got[k.value] = a
+    if sorted(got) != sorted(INFO_KEYS):
+        raise Abort("getSignatureInfo reports keys %r" % sorted(got))
+    # ``optional`` is the property that reads _optional (None -> {})
+    lines = [ast.unparse(n) for n in cls.body]
+    for need in ("optional = property(_get_optional, _set_optional, _del_optional)",
+                 "def _get_optional(self):\n    if self._optional is None:\n        return {}\n    return self._optional",
+                 "def _set_optional(self, opt):\n    self._optional = opt"):
+        if need not in lines:
+            raise Abort("class Method no longer has ``%s``" % need.split("\n")[0])
+    return ("Definition getSignatureInfo (m : method)\n  : list name * list name * list (name * dflt) * option name * option name :=\n"
+            "  (%s).\n" % ", ".join("m_%s m" % got[k] for k in INFO_KEYS))
+
+
+class _SigString:
+    """getSignatureString: a list accumulator of strings, one loop over self.positional,
+    guarded appends, a final ``"pre%spost" % sep.join(acc)``."""
+
+    def __init__(self):
+        self.acc = None
+
+    def sexpr(self, e, loopvar):
+        if isinstance(e, ast.Constant) and isinstance(e.value, str):
+            return "[PLit %s]" % coq_str(e.value)
+        if isinstance(e, ast.Name) and loopvar is not None and e.id == loopvar:
+            return "[PName v_%s]" % loopvar
+        a = _self_attr(e, ("varargs", "kwargs"))
+        if a:
+            return "(oname_pstr (m_%s m))" % a
+        if isinstance(e, ast.BinOp) and isinstance(e.op, ast.Add):
+            return "(%s ++ %s)" % (self.sexpr(e.left, loopvar), self.sexpr(e.right, loopvar))
+        if (isinstance(e, ast.Call) and isinstance(e.func, ast.Name) and e.func.id == "repr" and len(e.args) == 1
+                and not e.keywords and isinstance(e.args[0], ast.Subscript)
+                and _self_attr(e.args[0].value, ("optional",)) and isinstance(e.args[0].slice, ast.Name)
+                and e.args[0].slice.id == loopvar):
+            return "(py_getitem_repr (m_optional m) v_%s)" % loopvar
+        raise Abort("getSignatureString: unsupported string expression: " + _where(e))
+
+    def cond(self, e, loopvar):
+        a = _self_attr(e, ("varargs", "kwargs"))
+        if a:
+            return "(oname_truth (m_%s m))" % a
+        if (isinstance(e, ast.Compare) and len(e.ops) == 1 and isinstance(e.ops[0], ast.In)
+                and isinstance(e.left, ast.Name) and e.left.id == loopvar and loopvar is not None):
+            c = e.comparators[0]
+            if _self_attr(c, ("optional",)) or (isinstance(c, ast.Call) and isinstance(c.func, ast.Attribute)
+                                                 and c.func.attr == "keys" and not c.args and not c.keywords
+                                                 and _self_attr(c.func.value, ("optional",))):
+                return "(dict_has (m_optional m) v_%s)" % loopvar
+        raise Abort("getSignatureString: unsupported condition: " + _where(e))
+
+    def stmts(self, body, loopvar, ind):
+        out = ""
+        for s in body:
+            acc = "v_" + self.acc
+            if (isinstance(s, ast.Expr) and isinstance(s.value, ast.Call) and isinstance(s.value.func, ast.Attribute)
+                    and s.value.func.attr == "append" and isinstance(s.value.func.value, ast.Name)
+                    and s.value.func.value.id == self.acc and len(s.value.args) == 1 and not s.value.keywords):
+                out += "%slet %s := %s ++ [%s] in\n" % (ind, acc, acc, self.sexpr(s.value.args[0], loopvar))
+            elif (isinstance(s, ast.AugAssign) and isinstance(s.op, ast.Add) and isinstance(s.target, ast.Subscript)
+                  and isinstance(s.target.value, ast.Name) and s.target.value.id == self.acc
+                  and ast.unparse(s.target.slice) == "-1"):
+                out += "%slet %s := py_last_iadd %s %s in\n" % (ind, acc, acc, self.sexpr(s.value, loopvar))
+            elif isinstance(s, ast.If) and not s.orelse:
+                out += "%slet %s := if %s then\n%s%s  %s\n%s  else %s in\n" % (
+                    ind, acc, self.cond(s.test, loopvar), self.stmts(s.body, loopvar, ind + "    "), ind, "  " + acc,
+                    ind, acc)
+            elif (isinstance(s, ast.For) and loopvar is None and not s.orelse and isinstance(s.target, ast.Name)
+                  and _self_attr(s.iter, ("positional",)) and s.target.id not in (self.acc, "self")):
+                v = s.target.id
+                out += "%slet %s := fold_left (fun %s v_%s =>\n%s%s    %s) (m_positional m) %s in\n" % (
+                    ind, acc, acc, v, self.stmts(s.body, v, ind + "    "), ind, acc, acc)
+            else:
+                raise Abort("getSignatureString: unsupported statement: " + _where(s))
+        return out
+
+    def translate(self, cls):
+        body = _method(cls, "getSignatureString", ["self"])
+        if len(body) < 2 or ast.unparse(body[0]).split(" = ")[1:] != ["[]"] or not isinstance(body[0], ast.Assign) \
+                or not isinstance(body[0].targets[0], ast.Name):
+            raise Abort("getSignatureString does not start with ``<acc> = []``")
+        self.acc = body[0].targets[0].id
+        ret = body[-1]
+        ok = (isinstance(ret, ast.Return) and isinstance(ret.value, ast.BinOp) and isinstance(ret.value.op, ast.Mod)
+              and isinstance(ret.value.left, ast.Constant) and isinstance(ret.value.left.value, str)
+              and ret.value.left.value.count("%") == 1 and ret.value.left.value.count("%s") == 1)
+        j = ret.value.right if ok else None
+        ok = ok and (isinstance(j, ast.Call) and isinstance(j.func, ast.Attribute) and j.func.attr == "join"
+                     and isinstance(j.func.value, ast.Constant) and isinstance(j.func.value.value, str)
+                     and len(j.args) == 1 and not j.keywords and isinstance(j.args[0], ast.Name)
+                     and j.args[0].id == self.acc)
+        if not ok:
+            raise Abort("getSignatureString does not end in ``return \"..%s..\" % sep.join(acc)``")
+        pre, post = ret.value.left.value.split("%s")
+        out = "Definition getSignatureString_gen (m : method) : pstr :=\n"
+        out += "  let v_%s := (@nil pstr) in\n" % self.acc
+        out += self.stmts(body[1:-1], None, "  ")
+        out += "  py_format1 %s %s (py_join [PLit %s] v_%s).\n" % (coq_str(pre), coq_str(post),
+                                                                    coq_str(j.func.value.value), self.acc)
+        return out
+
+
+TV = "__tagged_values"
+ELEMENT_ALIASES = {"queryDirectTaggedValue": "queryTaggedValue", "getDirectTaggedValue": "getTaggedValue",
+                   "getDirectTaggedValueTags": "getTaggedValueTags"}
+
+
+def _is_tv(e):
+    return _self_attr(e, (TV,)) is not None
+
+
+def _tv_cond(e):
+    if _is_tv(e):
+        return "(tv_truth tv)"
+    if isinstance(e, ast.UnaryOp) and isinstance(e.op, ast.Not) and _is_tv(e.operand):
+        return "(negb (tv_truth tv))"
+    if (isinstance(e, ast.Compare) and len(e.ops) == 1 and isinstance(e.ops[0], ast.Is) and _is_tv(e.left)
+            and isinstance(e.comparators[0], ast.Constant) and e.comparators[0].value is None):
+        return "(tv_is_none tv)"
+    raise Abort("Element: unsupported condition: " + _where(e))
+
+
+def _tv_expr(e, params):
+    """-> (text, type) with type in rd / val / names"""
+    if isinstance(e, ast.Name) and params.get(e.id) == "val":
+        return "v_" + e.id, "val"
+    if isinstance(e, ast.Subscript) and _is_tv(e.value) and isinstance(e.slice, ast.Name) and params.get(e.slice.id) == "name":
+        return "(py_getitem (tv_dict tv) v_%s)" % e.slice.id, "rd"
+    if isinstance(e, ast.Call) and isinstance(e.func, ast.Attribute) and _is_tv(e.func.value) and not e.keywords:
+        if e.func.attr == "get" and len(e.args) == 2 and isinstance(e.args[0], ast.Name) \
+                and params.get(e.args[0].id) == "name":
+            d, td = _tv_expr(e.args[1], params)
+            if td == "val":
+                return "(dict_getd (tv_dict tv) v_%s %s)" % (e.args[0].id, d), "val"
+        if e.func.attr == "keys" and not e.args:
+            return "(map fst (tv_dict tv))", "names"
+    if isinstance(e, ast.Tuple) and not e.elts:
+        return "(@nil name)", "names"
+    if isinstance(e, ast.IfExp):
+        a, ta = _tv_expr(e.body, params)
+        b, tb = _tv_expr(e.orelse, params)
+        if ta == tb:
+            return "(if %s then %s else %s)" % (_tv_cond(e.test), a, b), ta
+    raise Abort("Element: unsupported expression: " + _where(e))
+
+
+def _element(tree):
+    cls = _class(tree, "Element")
+    out = ""
+    # state: set to None by __init__, assigned nowhere else but in setTaggedValue
+    stores = [n for n in ast.walk(cls) if isinstance(n, ast.Attribute) and n.attr == TV and isinstance(n.ctx, ast.Store)]
+    init = [n for n in cls.body if isinstance(n, ast.FunctionDef) and n.name == "__init__"]
+    if len(init) != 1 or "self.%s = None" % TV not in [ast.unparse(x) for x in init[0].body]:
+        raise Abort("Element.__init__ no longer sets self.%s = None" % TV)
+    out += "Definition tv_init : tvstate := None.\n\n"
+    # getTaggedValue
+    body = _method(cls, "getTaggedValue", ["self", "tag"])
+    params = {"tag": "name"}
+    text = ""
+    for s in body[:-1]:
+        if (isinstance(s, ast.If) and not s.orelse and len(s.body) == 1
+                and ast.unparse(s.body[0]) == "raise KeyError(tag)"):
+            text += "  if %s then RKeyError else\n" % _tv_cond(s.test)
+        else:
+            raise Abort("getTaggedValue: unsupported statement: " + _where(s))
+    if not body or not isinstance(body[-1], ast.Return) or body[-1].value is None:
+        raise Abort("getTaggedValue does not end in a return")
+    e, t = _tv_expr(body[-1].value, params)
+    if t != "rd":
+        raise Abort("getTaggedValue returns a %s" % t)
+    out += "Definition getTaggedValue (tv : tvstate) (v_tag : name) : rd :=\n%s  %s.\n\n" % (text, e)
+    # queryTaggedValue
+    body = _method(cls, "queryTaggedValue", ["self", "tag", "default"], ["None"])
+    if len(body) != 1 or not isinstance(body[0], ast.Return) or body[0].value is None:
+        raise Abort("queryTaggedValue is not a single return")
+    e, t = _tv_expr(body[0].value, {"tag": "name", "default": "val"})
+    if t != "val":
+        raise Abort("queryTaggedValue returns a %s" % t)
+    out += "Definition queryTaggedValue (tv : tvstate) (v_tag : name) (v_default : val) : val :=\n  %s.\n" % e
+    out += "Definition queryTaggedValue_default : val := VNone.\n\n"
+    # getTaggedValueTags
+    body = _method(cls, "getTaggedValueTags", ["self"])
+    if len(body) != 1 or not isinstance(body[0], ast.Return) or body[0].value is None:
+        raise Abort("getTaggedValueTags is not a single return")
+    e, t = _tv_expr(body[0].value, {})
+    if t != "names":
+        raise Abort("getTaggedValueTags returns a %s" % t)
+    out += "Definition getTaggedValueTags (tv : tvstate) : list name :=\n  %s.\n\n" % e
+    # setTaggedValue
+    body = _method(cls, "setTaggedValue", ["self", "tag", "value"])
+    text = ""
+    nstores = 0
+    for s in body:
+        if (isinstance(s, ast.If) and not s.orelse and len(s.body) == 1
+                and ast.unparse(s.body[0]) == "self.%s = {}" % TV):
+            text += "  let tv := if %s then Some (@nil (name * dflt)) else tv in\n" % _tv_cond(s.test)
+            nstores += 1
+        elif ast.unparse(s) == "self.%s[tag] = value" % TV:
+            text += "  let tv := Some (dict_set (tv_dict tv) v_tag v_value) in\n"
+        else:
+            raise Abort("setTaggedValue: unsupported statement: " + _where(s))
+    if len(stores) != nstores + 1:
+        raise Abort("self.%s is assigned outside __init__ / setTaggedValue" % TV)
+    out += "Definition setTaggedValue (tv : tvstate) (v_tag : name) (v_value : dflt) : tvstate :=\n%s  tv.\n\n" % text
+    # aliases
+    got = {}
+    for n in cls.body:
+        if isinstance(n, ast.Assign) and len(n.targets) == 1 and isinstance(n.targets[0], ast.Name) \
+                and n.targets[0].id in ELEMENT_ALIASES:
+            if not isinstance(n.value, ast.Name) or n.targets[0].id in got:
+                raise Abort("Element: unexpected alias " + _where(n))
+            got[n.targets[0].id] = n.value.id
+    if got != ELEMENT_ALIASES:
+        raise Abort("Element's Direct aliases are %r" % (got,))
+    for a, b in ELEMENT_ALIASES.items():
+        out += "Definition %s := %s.\n" % (a, b)
+    # Attribute / Method use these accessors as inherited
+    names = set(ELEMENT_ALIASES) | set(ELEMENT_ALIASES.values()) | {"setTaggedValue"}
+    for cname in ("Attribute", "Method"):
+        c = _class(tree, cname)
+        for n in ast.walk(c):
+            nm = getattr(n, "name", None) if isinstance(n, (ast.FunctionDef, ast.ClassDef)) else \
+                (n.id if isinstance(n, ast.Name) and isinstance(n.ctx, ast.Store) else None)
+            if nm in names:
+                raise Abort("class %s overrides %s" % (cname, nm))
+    bases = {"Attribute": ["Element"], "Method": ["Attribute"]}
+    for cname, want in bases.items():
+        if [ast.unparse(b) for b in _class(tree, cname).bases] != want:
+            raise Abort("class %s no longer derives from %s" % (cname, want))
+    return out
+
+
+def _abc_method(common_text):
+    tree = ast.parse(common_text)
+    imp = [n for n in tree.body if isinstance(n, ast.ImportFrom) and n.module == "zope.interface.interface"
+           and any(a.name == "fromFunction" and a.asname is None for a in n.names)]
+    if not imp:
+        raise Abort("common/__init__.py does not import fromFunction from zope.interface.interface")
+    cls = _class(tree, "ABCInterfaceClass")
+    body = _method(cls, "__method_from_function", ["self", "function", "name"])
+    text = "  let v_imlevel := (0)%Z in\n"
+    for s in body[:-1]:
+        if isinstance(s, ast.Assign) and len(s.targets) == 1 and ast.unparse(s.targets[0]) == "imlevel":
+            v = s.value
+            if isinstance(v, ast.Constant) and type(v.value) is int and v.value >= 0:
+                text += "  let v_imlevel := (%d)%%Z in\n" % v.value
+                continue
+            if (isinstance(v, ast.IfExp) and ast.unparse(v.test) == "function.__code__.co_argcount"
+                    and all(isinstance(x, ast.Constant) and type(x.value) is int and x.value >= 0
+                            for x in (v.body, v.orelse))):
+                text += ("  let v_imlevel := (if negb (Z.of_nat (co_argcount co) =? 0)%%Z then (%d)%%Z else (%d)%%Z) in\n"
+                         % (v.body.value, v.orelse.value))
+                continue
+        raise Abort("__method_from_function: unsupported statement: " + _where(s))
+    ret = body[-1] if body else None
+    src = ast.unparse(ret) if ret is not None else ""
+    if src == "return fromFunction(function, self, imlevel=imlevel, name=name)":
+        pass
+    elif src == "return fromFunction(function, self, name=name)":
+        text += "  let v_imlevel := (0)%Z in\n"
+    else:
+        raise Abort("__method_from_function does not end in ``return fromFunction(function, self, imlevel=imlevel, name=name)``")
+    return ("Definition abc_method_from_function (co : code) : result method :=\n%s"
+            "  fromFunction (with_imlevel (Z.to_nat v_imlevel) co).\n" % text)
+
+
+
 HEADER = """(* GENERATED by harness/translate/fromfunction.py from
      %(path)s
    (functions fromFunction, fromMethod).  Do not edit; regenerated on every run. *)
@@ -459,7 +778,7 @@ Definition translation_ok : bool := %(ok)s.
 """
 
 
-def translate_source(text, path="<string>"):
+def translate_source(text, path="<string>", common_text=None):
     tree = ast.parse(text)
     _check_flags(tree)
     _check_builtins(tree)
@@ -470,6 +789,12 @@ def translate_source(text, path="<string>"):
     out = HEADER % {"path": path, "ok": "true"}
     out += "\nDefinition fromFunction (co : code) : result method :=\n" + body + ".\n"
     out += "\nDefinition fromMethod (co : code) : result method :=\n  fromFunction (with_imlevel %d co).\n" % lvl
+    mcls = _class(tree, "Method")
+    out += "\n(* class Method *)\n" + _signature_info(mcls)
+    out += "\n" + _SigString().translate(mcls)
+    out += "\n(* class Element: tagged values; [tv] is self.__tagged_values *)\n" + _element(tree)
+    if common_text is not None:
+        out += "\n(* common/__init__.py ABCInterfaceClass.__method_from_function *)\n" + _abc_method(common_text)
     return out
 
 
@@ -481,12 +806,27 @@ def stub(path, reason):
     out += "(* translation aborted: %s *)\n" % reason
     out += "\nDefinition fromFunction (co : code) : result method := IndexError.\n"
     out += "\nDefinition fromMethod (co : code) : result method := IndexError.\n"
+    out += "\nDefinition abc_method_from_function (co : code) : result method := IndexError.\n"
+    out += "\nDefinition getSignatureString_gen (m : method) : pstr := [].\n"
+    out += ("\nDefinition tv_init : tvstate := None.\n"
+            "Definition getTaggedValue (tv : tvstate) (v_tag : name) : rd := RKeyError.\n"
+            "Definition queryTaggedValue (tv : tvstate) (v_tag : name) (v_default : val) : val := v_default.\n"
+            "Definition queryTaggedValue_default : val := VNone.\n"
+            "Definition getTaggedValueTags (tv : tvstate) : list name := [].\n"
+            "Definition setTaggedValue (tv : tvstate) (v_tag : name) (v_value : dflt) : tvstate := tv.\n"
+            "Definition queryDirectTaggedValue := queryTaggedValue.\n"
+            "Definition getDirectTaggedValue := getTaggedValue.\n"
+            "Definition getDirectTaggedValueTags := getTaggedValueTags.\n")
     return out
 
 
 def translate_file(path):
+    import os
     with open(path) as fh:
-        return translate_source(fh.read(), path)
+        text = fh.read()
+    with open(os.path.join(os.path.dirname(path), "common", "__init__.py")) as fh:
+        common = fh.read()
+    return translate_source(text, path, common)
 
 
 if __name__ == "__main__":
